@@ -7,7 +7,7 @@ if ! git diff --quiet; then echo "repo dirty"; exit 2; fi
 git apply "$patch" || { echo "patch does not apply"; exit 2; }
 cd /verif
 ./check "$prop" "$tier" > /tmp/try_mutant.out 2>&1; rc=$?
-git -C /repo checkout -- . ; git -C /repo clean -fdq -- . 2>/dev/null
+git -C /repo checkout -- . ; git -C /repo clean -fdq -- . 2>/dev/null; ./check build >/dev/null 2>&1
 grep -E "^(VIOLATION|KNOWN-FINDING|HARNESS-ERROR|violation detail)" /tmp/try_mutant.out | cut -c1-300 | head -12
 echo "exit=$rc"
 exit $rc
